@@ -112,22 +112,19 @@ class ExcelInPython:
     def _compare(self, operator: str, left_operand: str | int | float | datetime.date | datetime.datetime,
                           right_operand: str | int | float | datetime.date | datetime.datetime) -> bool:
         try:
-            return self._by_operator(operator, int(left_operand), int(right_operand))
+            return self._by_operator(operator, float(left_operand), float(right_operand))
         except (ValueError, TypeError):
             try:
-                return self._by_operator(operator, float(left_operand), float(right_operand))
+                # Приводим date к datetime для удобного сравнения
+                if isinstance(left_operand, datetime.date) and not isinstance(left_operand, datetime.datetime):
+                    left_operand = datetime.datetime(left_operand.year, left_operand.month, left_operand.day)
+
+                if isinstance(right_operand, datetime.date) and not isinstance(right_operand, datetime.datetime):
+                    right_operand = datetime.datetime(right_operand.year, right_operand.month, right_operand.day)
+
+                return self._by_operator(operator, left_operand, right_operand)
             except (ValueError, TypeError):
-                try:
-                    # Приводим date к datetime для удобного сравнения
-                    if isinstance(left_operand, datetime.date) and not isinstance(left_operand, datetime.datetime):
-                        left_operand = datetime.datetime(left_operand.year, left_operand.month, left_operand.day)
-                    
-                    if isinstance(right_operand, datetime.date) and not isinstance(right_operand, datetime.datetime):
-                        right_operand = datetime.datetime(right_operand.year, right_operand.month, right_operand.day)
-                    
-                    return self._by_operator(operator, left_operand, right_operand)
-                except (ValueError, TypeError):
-                    return self._by_operator(operator, str(left_operand), str(right_operand))
+                return self._by_operator(operator, str(left_operand), str(right_operand))
 
 
     def _flatten_list(self, subject: List) -> List:
